@@ -196,6 +196,24 @@ theorem asm_refines_stuck {tb : List (Nat × BTR)} {manual : List ManualEdge} {f
     | refl => rfl
     | step _ hs' ih => subst ih; exact absurd hs' (hstuck _)
 
+/-- **rstep_next_single** — under `SingleCoherent` (and without manual edges) the transfers of the reference machine
+    are those of the per-instruction oracle: out of the last graph of the unit at `pc` exactly to the unit's
+    successors whose guard holds, out of an inner graph of the unit exactly to the unit's next graph. -/
+theorem rstep_next_single {tb : List (Nat × BTR)} {single : Nat → Option (List Function × List (Nat × Option Expr))}
+    (hs : SingleCoherent tb single) {pc : Nat} {gs : List Function} {succs : List (Nat × Option Expr)}
+    (hu : single pc = some (gs, succs)) (a b : Nat) (c : Option Expr) :
+    ((∃ g, gs.getLast? = some g ∧ g.addr = a) → ((a, b, c) ∈ reqList tb [] ↔ (b, c) ∈ succs)) ∧
+    (∀ q ∈ pairs (gs.map (·.addr)), q.1 = a → ((a, b, c) ∈ reqList tb [] ↔ (b = q.2 ∧ c = none))) := by
+  obtain ⟨_, hchain, hlast⟩ := hs pc gs succs hu
+  have hreq : ∀ x, x ∈ reqList tb [] ↔ x ∈ reqLinks tb ++ reqSuccs tb := by
+    intro x; simp [reqList, reqManual]
+  constructor
+  · rintro ⟨g, hg, rfl⟩
+    rw [hreq]; exact hlast g hg b c
+  · intro q hq hqa
+    subst hqa
+    rw [hreq]; exact hchain q hq b c
+
 /-- **translate_function_refines** — the same for the whole of `translate_function_extended` (work list +
     assembly): the table is the one the work list built; `Coherent.keys` comes for free. -/
 theorem translate_function_refines {oracle : Nat → Option (Res BTR)} {manual : List ManualEdge} {fnAddr fuel : Nat}
